@@ -77,6 +77,22 @@ def parseObs (fo : FloatOracle) (text : Bytes) : String × String :=
   | .panic => ("panic", tt)
   | .fuel => ("hang", tt)
 
+/-- every string and every compound name is shorter than 2^15 bytes: what the library's own reader accepts
+(`readString` takes the length as a signed int16); `C04_parse_wellformed` proves it of everything the parser model
+writes (`S15`) -/
+def s15ok : NBT → Bool
+  | .string s => s.length < 32768
+  | .list _ xs => s15List xs
+  | .compound kvs => s15Kvs kvs
+  | _ => true
+where
+  s15List : List NBT → Bool
+    | [] => true
+    | x :: xs => s15ok x && s15List xs
+  s15Kvs : List (Bytes × NBT) → Bool
+    | [] => true
+    | (k, v) :: kvs => k.length < 32768 && s15ok v && s15Kvs kvs
+
 /-- spec judgement of an observation of `snbt.parse` -/
 def judgeParse (fs : SNBT.FloatSem) (text : Bytes) (obs : String) : Option String :=
   let toks := obs.splitOn " "
@@ -92,11 +108,14 @@ def judgeParse (fs : SNBT.FloatSem) (text : Bytes) (obs : String) : Option Strin
     | .ok t =>
       if bytes != encPayload t then some s!"content differs from the grammar's reading: expected {hexOfBytes (encPayload t)}"
       else if tt != t.tag.toNat then some s!"TagType {tt} but the document has tag {t.tag.toNat}"
+      else if !s15ok t then some "accepted text produced a string or name over 32767 bytes: a document the library cannot read back"
       else none
     | .unspecified =>
       -- only well-formedness of the produced document under the announced tag
       match parsePayload (bytes.length + 2) (BitVec.ofNat 8 tt) bytes with
-      | some (_, []) => none
+      | some (t', []) =>
+        if s15ok t' then none
+        else some "accepted text produced a string or name over 32767 bytes: a document the library cannot read back"
       | _ => some s!"accepted text produced an ill-formed document for tag {tt}"
   | _, _ => some "unparseable observation"
 
@@ -191,6 +210,17 @@ def handle (op : String) (args : List String) (obs : String) : Option Verdict :=
     let v := handleRt tag d ff pf obs
     -- an `err` observation is compared without its byte count
     some { v with model := if normErr obs == v.model then obs else v.model }
+  | "snbt.conc", _ =>
+    -- no model: the model's functions are pure, a pure function has no schedule; the oracle compares the
+    -- conversions made side by side on several goroutines with the sequential baseline of the same run
+    let toks := obs.splitOn " "
+    let spec : Option String :=
+      if toks.head! != "ok" then some "unparseable observation"
+      else if (kv toks "seq") == none || (kv toks "seq") != (kv toks "conc") then
+        some "concurrent conversions differ from the sequential baseline (digest)"
+      else if (kv toks "bad") != some "0" then some "concurrent conversions differ from the sequential baseline"
+      else none
+    some { model := obs, spec := spec }
   | _, _ => none
 
 end Driver.C04
